@@ -144,6 +144,8 @@ def apply_overlay(files, units, scratch_src):
             ov_rel = os.path.join("verif_overlay", os.path.basename(u["overlay"]))
             with open(os.path.join(VERIF, u["overlay"]), "rb") as fh:
                 files[ov_rel] = fh.read()
+            if u.get("extract"):
+                files[ov_rel] = fill_extracts(files[ov_rel].decode(), u, files, anchors).encode()
             for extra in u.get("overlay_extra", []):
                 with open(os.path.join(VERIF, extra), "rb") as fh:
                     files[os.path.join("verif_overlay", os.path.basename(extra))] = fh.read()
@@ -604,6 +606,42 @@ def extract_fn(text, anchor_rx, what):
     return text[off:ob].rstrip(), text[ob + 1:cb], s + 1
 
 
+
+def fill_extracts(tpl, u, files, anchors, rewrites_applied=None, rewrite_key="rewrite"):
+    """Replace every /*@EXTRACT:name@*/ marker of a template by text copied verbatim
+    from /repo's current tree (statement slice, whole fn, or fn body)."""
+    anchors.setdefault(u["id"], {})
+    for ex in u.get("extract", []):
+        rel = ex["file"]
+        if rel not in files:
+            raise Undecided("ANCHOR-LOST %s: file %s missing" % (u["id"], rel))
+        text = files[rel].decode()
+        what = u["id"] + "/" + ex["name"]
+        if ex["kind"] == "slice":
+            body, l0, l1 = extract_between(text, ex["start"], ex["end"], what)
+            anchors[u["id"]][ex["name"]] = "%s:%d-%d" % (rel, l0, l1)
+        elif ex["kind"] == "fn":
+            sig, body_, l0 = extract_fn(text, ex["anchor"], what)
+            body = sig + " {" + body_ + "}"
+            anchors[u["id"]][ex["name"]] = "%s:%d" % (rel, l0)
+        elif ex["kind"] == "fn_body":
+            sig, body, l0 = extract_fn(text, ex["anchor"], what)
+            anchors[u["id"]][ex["name"]] = "%s:%d" % (rel, l0)
+        else:
+            raise Undecided("unknown extract kind %s" % ex["kind"])
+        for rw in ex.get(rewrite_key, []):
+            body, n = re.subn(rw["from"], rw["to"], body)
+            if rewrites_applied is not None:
+                rewrites_applied.append({"extract": ex["name"], "from": rw["from"], "to": rw["to"], "applied": n,
+                                         "reason": rw.get("reason", "")})
+            if n == 0 and rw.get("required", False):
+                raise Undecided("ANCHOR-LOST %s: rewrite /%s/ no longer applies" % (u["id"], rw["from"]))
+        marker = "/*@EXTRACT:%s@*/" % ex["name"]
+        if marker not in tpl:
+            raise Undecided("template of %s lacks marker %s" % (u["id"], marker))
+        tpl = tpl.replace(marker, body)
+    return tpl
+
 # --------------------------------------------------------------------------
 # standalone Kani units (statement slices / whole fns in a dependency-free crate)
 # --------------------------------------------------------------------------
@@ -614,32 +652,7 @@ def build_standalone(scratch, u, files, anchors):
     os.makedirs(os.path.join(cdir, "src"), exist_ok=True)
     with open(os.path.join(VERIF, u["template"])) as fh:
         tpl = fh.read()
-    anchors[u["id"]] = {}
-    for ex in u.get("extract", []):
-        rel = ex["file"]
-        if rel not in files:
-            raise Undecided("ANCHOR-LOST %s: file %s missing" % (u["id"], rel))
-        text = files[rel].decode()
-        if ex["kind"] == "slice":
-            body, l0, l1 = extract_between(text, ex["start"], ex["end"], u["id"] + "/" + ex["name"])
-            anchors[u["id"]][ex["name"]] = "%s:%d-%d" % (rel, l0, l1)
-        elif ex["kind"] == "fn":
-            sig, body_, l0 = extract_fn(text, ex["anchor"], u["id"] + "/" + ex["name"])
-            body = sig + " {" + body_ + "}"
-            anchors[u["id"]][ex["name"]] = "%s:%d" % (rel, l0)
-        elif ex["kind"] == "fn_body":
-            sig, body, l0 = extract_fn(text, ex["anchor"], u["id"] + "/" + ex["name"])
-            anchors[u["id"]][ex["name"]] = "%s:%d" % (rel, l0)
-        else:
-            raise Undecided("unknown extract kind")
-        for rw in ex.get("rewrite", []):
-            body, n = re.subn(rw["from"], rw["to"], body)
-            if n == 0 and rw.get("required", False):
-                raise Undecided("ANCHOR-LOST %s: rewrite /%s/ no longer applies" % (u["id"], rw["from"]))
-        marker = "/*@EXTRACT:%s@*/" % ex["name"]
-        if marker not in tpl:
-            raise Undecided("template %s lacks marker %s" % (u["template"], marker))
-        tpl = tpl.replace(marker, body)
+    tpl = fill_extracts(tpl, u, files, anchors)
     with open(os.path.join(cdir, "src", "lib.rs"), "w") as fh:
         fh.write(tpl)
     with open(os.path.join(cdir, "Cargo.toml"), "w") as fh:
@@ -672,29 +685,8 @@ def run_standalone_units(scratch, units, tier, res, logdir, files, anchors, extr
 def build_verus(scratch, u, files, anchors):
     with open(os.path.join(VERIF, u["template"])) as fh:
         tpl = fh.read()
-    anchors[u["id"]] = {}
     rewrites_applied = []
-    for ex in u.get("extract", []):
-        rel = ex["file"]
-        if rel not in files:
-            raise Undecided("ANCHOR-LOST %s: file %s missing" % (u["id"], rel))
-        text = files[rel].decode()
-        if ex["kind"] == "slice":
-            body, l0, l1 = extract_between(text, ex["start"], ex["end"], u["id"] + "/" + ex["name"])
-            anchors[u["id"]][ex["name"]] = "%s:%d-%d" % (rel, l0, l1)
-        else:
-            sig, body, l0 = extract_fn(text, ex["anchor"], u["id"] + "/" + ex["name"])
-            anchors[u["id"]][ex["name"]] = "%s:%d" % (rel, l0)
-        for rw in ex.get("rewrite", []):
-            body, n = re.subn(rw["from"], rw["to"], body)
-            rewrites_applied.append({"extract": ex["name"], "from": rw["from"], "to": rw["to"], "applied": n,
-                                     "reason": rw.get("reason", "")})
-            if n == 0 and rw.get("required", False):
-                raise Undecided("ANCHOR-LOST %s: rewrite /%s/ no longer applies" % (u["id"], rw["from"]))
-        marker = "/*@EXTRACT:%s@*/" % ex["name"]
-        if marker not in tpl:
-            raise Undecided("template %s lacks marker %s" % (u["template"], marker))
-        tpl = tpl.replace(marker, body)
+    tpl = fill_extracts(tpl, u, files, anchors, rewrites_applied)
     path = os.path.join(scratch.work, u["id"].replace(".", "_") + ".rs")
     with open(path, "w") as fh:
         fh.write(tpl)
